@@ -127,24 +127,26 @@ def populate(root, c):
 def call(adas, c):
     acc = c["acc"]
     s = _sp(c["species"])
+    # the second species argument (donor / beam): same kind as the first, or the other kind
+    s2 = s if c.get("species2", "same") == "same" else _sp("isotope" if c["species"] == "element" else "element")
     if acc in ("ionisation_rate", "line_radiated_power_rate"):
         return getattr(adas, acc)(s, 0)
     if acc in ("recombination_rate", "continuum_radiated_power_rate", "cx_radiated_power_rate"):
         return getattr(adas, acc)(s, 1)
     if acc == "thermal_cx_rate":
-        return adas.thermal_cx_rate(s, 0, s, 1)
+        return adas.thermal_cx_rate(s2, 0, s, 1)
     if acc in ("impact_excitation_pec", "recombination_pec"):
         return getattr(adas, acc)(s, 0, TR)
     if acc == "thermal_cx_pec":
-        return adas.thermal_cx_pec(s, 0, s, 1, TR)
+        return adas.thermal_cx_pec(s2, 0, s, 1, TR)
     if acc == "beam_stopping_rate":
-        return adas.beam_stopping_rate(s, s, 1)
+        return adas.beam_stopping_rate(s2, s, 1)
     if acc == "beam_population_rate":
-        return adas.beam_population_rate(s, 2, s, 1)
+        return adas.beam_population_rate(s2, 2, s, 1)
     if acc == "beam_emission_pec":
-        return adas.beam_emission_pec(s, s, 1, TR)
+        return adas.beam_emission_pec(s, s2, 1, TR)       # the beam species (first) carries the wavelength
     if acc == "beam_cx_pec":
-        return adas.beam_cx_pec(s, s, 1, TR)
+        return adas.beam_cx_pec(s2, s, 1, TR)
     raise KeyError(acc)
 
 
@@ -277,6 +279,7 @@ INVARIANT MissingPolicyUniform
 INVARIANT IsotopeUsesElementRates
 INVARIANT ExtrapOnlyOutside
 INVARIANT DropIrrelevant
+INVARIANT Species2Irrelevant
 INVARIANT EmitCase
 """
 
@@ -300,7 +303,7 @@ def run(v):
         # seed-stable thinning of the flag combinations for argument classes that do not depend on them
         import random
         rng = random.Random(v.seed)
-        keep = [r for r in cases if r["case"]["arg"][0] in ("grid", "nonpos") or not r["case"]["present"] or r["case"].get("drop", "none") != "none" or rng.random() < 0.5]
+        keep = [r for r in cases if r["case"]["arg"][0] in ("grid", "nonpos") or not r["case"]["present"] or r["case"].get("drop", "none") != "none" or r["case"].get("species2") == "other" or rng.random() < 0.5]
         if sum(1 for r in keep if r["case"].get("drop", "none") != "none") < 60:
             raise core.MachineryError("vacuity: sharp-drop tables missing")
         cases = keep
